@@ -13,9 +13,65 @@ history that stays outside exactly those three input classes (`Spec.C01.excluded
 import SwV.Model.C01
 import SwV.Spec.C01
 import SwV.Lemmas.C01
+import SwV.Gen.C01
 
 namespace SwV.Props.C01
 open SwV.Model.C01 SwV.Spec.C01 SwV.Lemmas.C01
+
+/-! ### bridges to the source (SwV/Gen/C01.lean is regenerated from /repo on every run) -/
+
+/-- The three tests of `Volume.isFileUnchanged` as written in the source, next to what the model
+    does with them: the shortcut is taken only for a non-TTL volume, a live entry (positive
+    size), the SAME COOKIE and the SAME BYTES (the checksum test is implied by equal bytes).
+    Weakening the byte comparison in the source changes the first conjunct. -/
+theorem bridge_isFileUnchanged_condition :
+    SwV.Gen.C01.unchangedSameCond =
+      "oldNeedle.Cookie == n.Cookie && oldNeedle.Checksum == n.Checksum && bytes.Equal(oldNeedle.Data, n.Data)" ∧
+    SwV.Gen.C01.unchangedLiveCond = "ok && !nv.Offset.IsZero() && nv.Size.IsValid()" ∧
+    SwV.Gen.C01.unchangedTtlCond = "v.Ttl.String() != \"\"" ∧
+    (∀ (st : Vol) (id ck : Nat) (c : Content) (e : Ent) (r : Rec), st.idx id = some e → recAt st.log e.off = some r →
+      isFileUnchanged st id ck c = true → 0 < e.size ∧ r.cookie = ck ∧ r.c.data = c.data) := by
+  refine ⟨by decide, by decide, by decide, ?_⟩
+  intro st id ck c e r hi hr hu
+  exact isFileUnchanged_true hi hr hu
+
+/-- the other decisions the model mirrors, as written in the source -/
+theorem bridge_decision_conditions :
+    SwV.Gen.C01.writeCookieCond = "existingNeedle.Cookie != n.Cookie" ∧
+    SwV.Gen.C01.writePutCond = "!ok || uint64(nv.Offset.ToActualOffset()) < offset" ∧
+    SwV.Gen.C01.deleteLiveCond = "ok && nv.Size.IsValid()" ∧
+    SwV.Gen.C01.readNotFoundCond = "!ok || nv.Offset.IsZero()" ∧
+    SwV.Gen.C01.readEmptyCond = "readSize == 0" ∧
+    SwV.Gen.C01.storeWriteGuard = "v.IsReadOnly()" ∧
+    SwV.Gen.C01.storeDeleteGuard = "v.noWriteOrDelete" ∧
+    SwV.Gen.C01.getCookieCond = "n.Cookie != cookie" ∧
+    SwV.Gen.C01.deleteCookieCond = "n.Cookie != cookie" := by decide
+
+/-- `Size.IsValid` / `Size.IsDeleted` (translated from the source) are the model's sign tests,
+    and the field widths used by `needleSize` are the source's constants -/
+theorem bridge_size_predicates :
+    (∀ z : Int, SwV.Gen.C01.Size_IsValid z = decide (0 < z)) ∧
+    (∀ z : Int, SwV.Gen.C01.Size_IsDeleted z = decide (z < 0)) ∧
+    SwV.Gen.C01.LastModifiedBytesLength = 5 ∧ SwV.Gen.C01.TtlBytesLength = 2 ∧
+    SwV.Gen.C01.TombstoneFileSize = -1 := by
+  refine ⟨?_, ?_, by decide, by decide, by decide⟩
+  · intro z
+    by_cases h : 0 < z
+    · have h2 : z ≠ -1 := by omega
+      simp [SwV.Gen.C01.Size_IsValid, h, h2]
+    · simp [SwV.Gen.C01.Size_IsValid, h]
+  · intro z
+    by_cases h : z < 0
+    · simp [SwV.Gen.C01.Size_IsDeleted, h]
+    · have h2 : z ≠ -1 := by omega
+      simp [SwV.Gen.C01.Size_IsDeleted, h, h2]
+
+/-- the functions the model transcribes have not been edited since the model was written -/
+theorem bridge_source_pins :
+    SwV.Gen.C01.src_isFileUnchanged = "9b0c84174250e52d" ∧ SwV.Gen.C01.src_doWriteRequest = "673b0ac565c7bfce" ∧
+    SwV.Gen.C01.src_doDeleteRequest = "bb4f3b7b20271c7d" ∧ SwV.Gen.C01.src_readNeedle = "f3764387cee126f8" ∧
+    SwV.Gen.C01.src_WriteVolumeNeedle = "db4d4c6af1284d4b" ∧ SwV.Gen.C01.src_DeleteVolumeNeedle = "04623d97718ca70c" := by
+  decide
 
 /-- One simulation square: from a state satisfying the representation invariant, a well-formed
     operation outside the excluded classes takes model and spec to related states with the
